@@ -9,6 +9,11 @@ NA = {
 PENDING = "not claimed yet: contracts for this property are still being written (DESIGN.md build order)"
 
 CLAIMED = {
+ "C12": dict(
+   text="Deductive: every annotation validator is verified as an iff decision against the rule transcribed from the property (unwrap, nullable, empty_behavior, timestamp_format, bytes_encoding, flatten field rules, oneof discriminator rules, enum conflict, HTTP path/query/bodiless rules), each error message is proved to name the offender, and the wiring is proved by recursion over the nesting tree: Generate() of go-http and go-client returning nil implies every message at every depth of every generated file satisfies every rule (termination measures included). Run-level lemmas state the property per file; the imported-file class is a known finding; a bounded family replays every rule x placement on the real plugins.",
+   design="4 (C12), appendix E.1",
+   note="Trusted: govc, solvers, protobuf-go observers and descriptor well-formedness axioms (spec/trusted/descriptors.spec). Assumed contract: ValidateFlattenCollisions (iff to an opaque predicate). The two undocumented 'only one MarshalJSON feature' refusals are outside the proved converse. Acceptance of valid definitions by ts-client/ts-server/openapiv3 is only covered by the bounded family (thorough tier). protogen emits no files when the plugin returns an error (trusted).",
+   technique="contract-based deductive verification: iff contracts per validator, recursive wiring contracts with loop invariants and decreases clauses, lemmas over contracts, z3/cvc5 race"),
  "C03": dict(
    text="Deductive: the route-deciding functions of all five generators are verified against contracts (VCs from their source, SMT-discharged), and the pairwise agreement of verb, path template, path variables and body/query placement is proved as lemmas over those contracts for a symbolic service/method; disagreement classes that exist today are split off as known findings and replayed against the real plugins.",
    design="4 (C03), 2.9",
